@@ -30,7 +30,7 @@ class C11(Profile):
     probes = ['older_version_added_after_newer', 'bundle_form', 'text_form', 'unregistered_dict_versioned',
               'save_dir_path', 'torn_write_then_restart', 'enospc_mid_list', 'exact_readd', 'read_under_torn_file',
               'save_load_compared', 'utf16_save', 'bundlify_store', 'fault_on_read_fired', 'mixed_versions_in_memory',
-              'add_resolved_by_observation', 'same_instant_respelled', 'loaded_into_nonempty_store', 'memory_store_constructed_with_data', 'single_object_file_loaded']
+              'add_resolved_by_observation', 'same_instant_respelled', 'loaded_into_nonempty_store', 'memory_store_constructed_with_data', 'single_object_file_loaded', 'file_vanished_under_reader']
     rule = ('plans: a pool of <=12 ids x <=5 versions (versioned SDO/SRO of 2.0 and 2.1, 2.1 SCOs, marking definitions, registered '
             'custom type, unregistered dict-kept type) and 5-40 ops (adds in every documented form to a MemoryStore and a '
             'FileSystemStore on the simulated disk, reads, save/load, restart, repair); every 5th run injects I/O faults / crashes. '
@@ -341,8 +341,19 @@ class C11(Profile):
             fn = lambda: S.query([Filter('id', '=', sid)])
         if not after_add:
             sw.disk.begin_op(ls_key, fault if store == 'F' else None)
+            before_files = sw.disk_model()[0] if (store == 'F' and fault and fault.get('kind') == 'VANISH') else None
         out = call(fn)
         fired = [] if after_add else sw.disk.end_op()
+        if fired and fired[0].startswith('VANISH'):
+            # a file was really deleted under the reader: that version is gone (like an operator deleting it), the read itself
+            # must tolerate it silently (documented: file-not-found between listing and open is skipped)
+            gone = {k for k, (nj, rel) in (before_files or {}).items() if rel in sw.disk.vanished}
+            for k in gone:
+                model.pop(k, None)
+            world.probe('file_vanished_under_reader')
+            if not out.ok:
+                raise Violation('read-total', 'C11.read-raised-on-vanished-file/%s/%s' % (kind, type(out.exc).__name__),
+                                dict(exc=repr(out.exc)[:300]))
         world.state(store, kind, fired[0] if fired else '-', out.tag.split(':')[0], 'torn' if sw.torn else '')
         if fired:
             world.probe('fault_on_read_fired')
